@@ -1,0 +1,33 @@
+//go:build verif
+
+package schedulerplugin
+
+import (
+	corev1 "k8s.io/api/core/v1"
+	"tkestack.io/galaxy/pkg/ipam/cloudprovider"
+	"tkestack.io/galaxy/pkg/ipam/crd"
+)
+
+// This file is compiled only with -tags verif. It exports the few unexported entry points that the
+// verification harness under /verif needs to drive; it changes no behaviour.
+
+// VerifSetCloudProvider sets the cloud provider (nil disables it).
+func (p *FloatingIPPlugin) VerifSetCloudProvider(cp cloudprovider.CloudProvider) { p.cloudProvider = cp }
+
+// VerifSetCrdCache replaces the dynamic-informer backed CRD cache.
+func (p *FloatingIPPlugin) VerifSetCrdCache(c crd.CrdCache) { p.crdCache = c }
+
+// VerifResyncPod runs one resync pass.
+func (p *FloatingIPPlugin) VerifResyncPod() error { return p.resyncPod() }
+
+// VerifSyncPodIPs runs one pod-IP sync pass.
+func (p *FloatingIPPlugin) VerifSyncPodIPs() { p.syncPodIPsIntoDB() }
+
+// VerifUpdateConfigMap runs one configmap reload.
+func (p *FloatingIPPlugin) VerifUpdateConfigMap() (bool, error) { return p.updateConfigMap() }
+
+// VerifUnbind runs one unbind for the given pod.
+func (p *FloatingIPPlugin) VerifUnbind(pod *corev1.Pod) error { return p.unbind(pod) }
+
+// VerifUnreleasedLen returns the length of the release queue.
+func (p *FloatingIPPlugin) VerifUnreleasedLen() int { return len(p.unreleased) }
